@@ -21,8 +21,15 @@
 //!   raw host pointers; live = bit r set iff region r's memory is still mapped: uniquely named memfd
 //!   in /proc/self/maps (file, raw) or its address range still covered (anonymous; a range seen
 //!   unmapped once is dead for good, which removes the address-reuse ambiguity).
-//! After every operation every region reachable from every live handle is read through its raw
-//! pointer (a wrongly unmapped one faults: the runner reports the crash with the case).
+//! After every operation EVERY region's mapping is looked up page by page in /proc/self/maps: a region counts as
+//! mapped while any page of its span is (a munmap that is too short leaves a tail behind); a region of which only
+//! SOME pages are mapped, or a region reachable from a live handle whose first page is not mapped (a munmap that was
+//! too long took a neighbour along - regions created back to back are adjacent, mmap hands out addresses top down), makes
+//! the step report live = all ones and ends the history - as does an operation after which the number of mapped bytes
+//! of the whole process (heap and stacks aside) has not changed by exactly the spans of the regions that came to
+//! life or went away in it (a munmap that is too long may also hit mappings that are not regions); otherwise every region reachable from every live handle is
+//! read through its raw pointer.  Some file-backed regions carry the caller's hugetlbfs hint Some(true) (on an ordinary
+//! file; set through set_hugetlbfs or with_hugetlbfs): a hint must not change what Drop unmaps.
 use crate::Suite;
 // the unix (non-xen) mmap backend is the subject; under the harness feature `xen` the suite is empty
 #[cfg(not(feature = "xen"))]
@@ -101,39 +108,65 @@ fn mask_h(h: &H) -> u128 {
         H::Snap(m) => mask_regions(m.iter()),
     }
 }
-fn covered(mp: &str, addr: usize, len: usize) -> bool {
+/// the lines of /proc/self/maps as (start, end, text)
+fn parse_maps(mp: &str) -> Vec<(usize, usize, &str)> {
+    let mut v = Vec::new();
     for l in mp.lines() {
         let range = l.split(' ').next().unwrap_or("");
         let mut it = range.split('-');
         if let (Some(a), Some(b)) = (it.next(), it.next()) {
             if let (Ok(a), Ok(b)) = (usize::from_str_radix(a, 16), usize::from_str_radix(b, 16)) {
-                if a <= addr && addr + len <= b {
-                    return true;
-                }
+                v.push((a, b, l));
             }
         }
     }
-    false
+    v
 }
-fn live_mask(infos: &mut [Info]) -> u128 {
-    let mp = maps();
+fn page_mapped(lines: &[(usize, usize, &str)], page: usize, name: Option<&str>) -> bool {
+    lines.iter().any(|(a, b, l)| *a <= page && page + PAGE <= *b && name.map_or(true, |n| l.contains(n)))
+}
+/// (live mask, some mapping is only partly there)
+fn live_mask(infos: &mut [Info], mp: &str) -> (u128, bool) {
+    let lines = parse_maps(mp);
     let mut mask = 0u128;
+    let mut partial = false;
     for (r, inf) in infos.iter_mut().enumerate() {
+        let total = span_of(inf.size) / PAGE;
+        let name = if inf.kind == 0 { None } else { Some(inf.name.as_str()) };
+        let mapped = (0..total).filter(|k| page_mapped(&lines, inf.addr + k * PAGE, name)).count();
         let alive = if inf.kind == 0 {
-            // alive while ANY page of the mapping's page span is still mapped
-            let any = (0..span_of(inf.size) / PAGE).any(|k| covered(&mp, inf.addr + k * PAGE, PAGE));
-            if !inf.dead_seen && !any {
+            // an anonymous range seen unmapped once is dead for good (its addresses may be handed out again)
+            if !inf.dead_seen && mapped == 0 {
                 inf.dead_seen = true;
+            }
+            if !inf.dead_seen && mapped < total {
+                partial = true;
             }
             !inf.dead_seen
         } else {
-            mp.contains(&format!("{} (deleted)", inf.name))
+            if mapped > 0 && mapped < total {
+                partial = true;
+            }
+            mapped > 0 || mp.contains(&format!("{} (deleted)", inf.name))
         };
         if alive {
             mask |= 1u128 << r;
         }
     }
-    mask
+    (mask, partial)
+}
+/// bytes of address space mapped by everything except the heap and the stacks (which grow on their own)
+fn mapped_bytes(lines: &[(usize, usize, &str)]) -> usize {
+    lines.iter().filter(|(_, _, l)| !l.contains("[heap]") && !l.contains("[stack")).map(|(a, b, _)| b - a).sum()
+}
+/// the first page of every region reachable through the handle is mapped (so that reading its tag cannot fault)
+fn handle_readable(h: &H, lines: &[(usize, usize, &str)]) -> bool {
+    let ok = |r: &R| page_mapped(lines, r.as_ptr() as usize, None);
+    match h {
+        H::Region(r) => ok(r),
+        H::Map(m) => m.iter().all(|r| ok(r)),
+        H::Snap(m) => m.iter().all(|r| ok(r)),
+    }
 }
 
 fn create(cid: u64, id: u64, kind: u64, slot: u64, raws: &mut Vec<usize>) -> (Arc<R>, Info) {
@@ -149,7 +182,22 @@ fn build_region(cid: u64, id: u64, kind: u64, raws: &mut Vec<usize>) -> (MmapReg
     let size = size_of_region(id);
     let region: MmapRegion<()> = match kind {
         0 => MmapRegion::new(size).unwrap(),
-        1 => MmapRegion::from_file(FileOffset::new(memfd(&name, span_of(size)), 0), size).unwrap(),
+        1 => match id % 3 {
+            // the caller's hugetlbfs hint on an ordinary file (sizes are no multiples of 2 MiB): a hint, nothing else
+            1 => {
+                let mut r = MmapRegion::from_file(FileOffset::new(memfd(&name, span_of(size)), 0), size).unwrap();
+                r.set_hugetlbfs(true);
+                r
+            }
+            2 => MmapRegionBuilder::<()>::new(size)
+                .with_file_offset(FileOffset::new(memfd(&name, span_of(size)), 0))
+                .with_mmap_prot(prot)
+                .with_mmap_flags(libc::MAP_NORESERVE | libc::MAP_SHARED)
+                .with_hugetlbfs(true)
+                .build()
+                .unwrap(),
+            _ => MmapRegion::from_file(FileOffset::new(memfd(&name, span_of(size)), 0), size).unwrap(),
+        },
         _ => {
             let f = memfd(&name, span_of(size));
             // SAFETY: a fresh shared mapping owned by the harness; unmapped by the harness at the end
@@ -254,6 +302,10 @@ fn exec(case: &[Tok]) -> Vec<Tok> {
     let mut raws: Vec<usize> = Vec::new();
     let mut out: Vec<u128> = Vec::new();
     let mut nrefused: u64 = 0;
+    // address-space accounting: after every operation the mapped bytes must have changed by exactly the spans of the
+    // regions that came to life / went away in it (a munmap that is too long takes foreign mappings along)
+    let mut prev_bytes = mapped_bytes(&parse_maps(&maps()));
+    let mut prev_mask: u128 = 0;
     let idx = |x: u128| if x < 1 << 32 { x as usize } else { usize::MAX };
     for p in ops.chunks(3).take(300) {
         if p.len() < 3 {
@@ -421,16 +473,49 @@ fn exec(case: &[Tok]) -> Vec<Tok> {
             }
             _ => {}
         }
-        // reads through every surviving handle
-        let mut corrupt = false;
+        // every mapping, page by page; then reads through every surviving handle
+        let mp = maps();
+        let (mask, partial) = live_mask(&mut infos, &mp);
+        let lines = parse_maps(&mp);
+        let mut corrupt = partial;
+        let now_bytes = mapped_bytes(&lines);
+        let mut expect = prev_bytes as i128;
+        for (r, inf) in infos.iter().enumerate() {
+            let (was, is) = (prev_mask >> r & 1 == 1, mask >> r & 1 == 1);
+            if is && !was {
+                expect += span_of(inf.size) as i128;
+            }
+            if was && !is {
+                expect -= span_of(inf.size) as i128;
+            }
+        }
+        if now_bytes as i128 != expect {
+            corrupt = true;
+        }
+        prev_bytes = now_bytes;
+        prev_mask = mask;
         for h in handles.iter().flatten() {
-            if mask_h(h) >> 127 != 0 {
+            if !handle_readable(h, &lines) {
                 corrupt = true;
+            }
+        }
+        if !corrupt {
+            for h in handles.iter().flatten() {
+                if mask_h(h) >> 127 != 0 {
+                    corrupt = true;
+                }
             }
         }
         out.push(res.0);
         out.push(res.1);
-        out.push(if corrupt { u128::MAX } else { live_mask(&mut infos) });
+        out.push(if corrupt { u128::MAX } else { mask });
+        if corrupt {
+            // handles may point at unmapped memory: forget them instead of running their destructors on it
+            for h in handles.drain(..) {
+                std::mem::forget(h);
+            }
+            break;
+        }
     }
     handles.clear();
     for ps in raws.chunks(2) {
